@@ -7,6 +7,7 @@ import (
 	"flag"
 	"fmt"
 	"math/rand"
+	"strings"
 
 	"free5gclib/milenage"
 	"tglib"
@@ -74,11 +75,20 @@ func main() {
 		}
 		grid = pick
 	}
+	var prevOp []byte
 	for i, c := range grid {
 		if i >= n {
 			break
 		}
+		if *tier != "thorough" {
+			// quick tier: the factors are cycled by index, so that neighbouring factors meet in all their pairs within the 64 cases
+			c = cls{2 + (i/11)%2, 5 + i%11, i % 4, (i / 4) % 4, (i/2)%2 == 0}
+		}
 		k, op, rnd := ev.Corner16(r), ev.Corner16(r), ev.Corner16(r)
+		if i%4 == 3 && prevOp != nil {
+			op = prevOp // subscribers sharing one operator constant under different keys
+		}
+		prevOp = op
 		autn := ev.Bytes(r, 16)
 		if i%5 == 0 {
 			copy(autn[0:6], []byte{0, 0, 0, 0, 0, 0})
@@ -112,6 +122,12 @@ func main() {
 		}
 		if i%4 == 1 { // upper-case hex in the configuration
 			kh = fmt.Sprintf("%X", k)
+		}
+		if i%4 == 2 {
+			oph = fmt.Sprintf("%X", op)
+			if opch != "" {
+				opch = strings.ToUpper(opch)
+			}
 		}
 		ue := tglib.NewRanUeContext("imsi-"+supi, 1, uint8(c.enc), uint8(c.integ))
 		ue.AuthenticationSubs = tglib.GetAuthSubscription(kh, opch, oph)
